@@ -1934,5 +1934,30 @@ class VCond(Family):
         ]
 
 
-FAMILIES = {f.name: f for f in (VCond(), Ids(), Keys(), XsiType(), Subst(), Fixed(), Wild(), Ns(), Mixed(),
+class RedefChain(Family):
+    """Chained redefinitions: main includes top, top redefines mid, mid redefines base. The order in which the
+    documents are registered decides which redefinition of T wins."""
+    name = 'redefchain'
+    paths = ()
+
+    def sources(self, version):
+        H = f'<xs:schema {XS}>'
+        return {
+            'main.xsd': H + '<xs:include schemaLocation="top.xsd"/><xs:element name="other" type="T"/></xs:schema>',
+            'top.xsd': H + '''<xs:redefine schemaLocation="mid.xsd">
+  <xs:simpleType name="T"><xs:restriction base="T"><xs:maxLength value="3"/></xs:restriction></xs:simpleType>
+ </xs:redefine></xs:schema>''',
+            'mid.xsd': H + '''<xs:redefine schemaLocation="base.xsd">
+  <xs:simpleType name="T"><xs:restriction base="T"><xs:maxLength value="6"/></xs:restriction></xs:simpleType>
+ </xs:redefine></xs:schema>''',
+            'base.xsd': H + '''<xs:simpleType name="T"><xs:restriction base="xs:string"><xs:maxLength value="10"/></xs:restriction>
+ </xs:simpleType><xs:element name="root" type="T"/></xs:schema>''',
+        }
+
+    def docs(self, rng):
+        return [Doc('rc-len%d' % n, _decl() + '<root>%s</root>' % ('a' * n), 'valid' if n <= 3 else 'fault:lexical')
+                for n in (2, 3, 4, 6, 7, 10, 11)] + [Doc('rc-other', _decl() + '<other>abcd</other>', 'fault:lexical')]
+
+
+FAMILIES = {f.name: f for f in (VCond(), RedefChain(), Ids(), Keys(), XsiType(), Subst(), Fixed(), Wild(), Ns(), Mixed(),
                                 Assert11(), Recur(), Multi(), Multi2(), Shadow(), IdFields(), Dtd(), Chameleon(), Big(), OnDemand(), Simple(), Grouped(), LaxBuilt(), DeepKey())}
